@@ -33,6 +33,7 @@ PROPS = {
     "C01": dict(quick=4000, thorough=120000, events=None, runs_thorough=12),
     "C02": dict(quick=4000, thorough=120000, events=None, runs_thorough=12),
     "C03": dict(quick=4000, thorough=120000, events=None, runs_thorough=12),
+    "C15": dict(quick=4000, thorough=120000, events=None, runs_thorough=12),
 }
 
 TRUSTED_BASE = [
